@@ -9,7 +9,9 @@ def C(cat, tech, text, note, ref):
 
 
 STRUCT = ('Decides structural necessary conditions of the property on every path of the anchored code (for every input, schedule '
-          'and history); the numeric/trajectory clauses listed in DESIGN.md section 4 are NOT decided by this check. ')
+          'and history); the numeric/trajectory clauses listed in DESIGN.md section 4 are NOT decided by this check. The tree is first '
+          'normalised (new helpers inlined, new locals/constants substituted where that is an equivalence - DESIGN.md 16.1) and every '
+          'resolved call site of the anchored files is checked for arguments passed in the position of another parameter (T-ARGROLE). ')
 
 CLAIMS = {
  'C01': C('other', 'formula/factor extraction with local inlining, dominator analysis, ownership with view-alias tracking, must-precede dataflow',
@@ -33,7 +35,7 @@ CLAIMS = {
  'C07': C('other', 'slice typing of vectorised stencils (telescoping first difference, upwind alignment, limiter table), formula matching, purity',
    STRUCT + 'Here: both transport functions return F[:-1]-F[1:] of one freshly zeroed face array plus nucRate in the class containing the nucleation radius (sum telescopes exactly), each face term couples growth, population and sign mask of the same slice, the limiter clamps all bins+1 faces by -/+psd/dt, and the step limit is ratio*width/max|growth| over populated classes above the dissolution index.',
    'Non-negativity for all step sizes and dynamic ranges is a numeric consequence, not decided; a rewrite as explicit loops is reported as undecided.', '4/C07'),
- 'C08': C('other', 'symbolic field-state execution of every grid-writing method (all paths), structural comparison of final terms',
+ 'C08': C('other', 'symbolic field-state execution of every grid-writing method (all paths), structural comparison of final terms, order-domain evaluation of np.pad widths',
    STRUCT + 'Here: on exit of every grid operation, for every entry state, centres are midpoints of the final boundaries and boundaries/min/max/bins agree; extend is prefix preserving; re-mesh multiplies the interpolated distribution by old/new third moment and nothing else; adaptive adjustment ends at minBins/maxBins or below the maximum; reset restores the originals; *FromN moments depend only on their argument; a loaded grid is rebuilt from the saved scalars.',
    'Strict monotonicity of boundaries, exactness of the rescaled moment in floating point and minBins<=maxBins are not decided.', '4/C08'),
  'C09': C('other', 'interprocedural may-alias/purity analysis with numpy view tables, symbolic execution of the cache switch, key/argument agreement, must-pass-through',
@@ -51,22 +53,22 @@ CLAIMS = {
  'C14': C('other', 'cache-freshness by symbolic execution of all methods (caches discovered from lazy-property idiom), exact sympy identities on extracted formulas, mask structure',
    STRUCT + 'Here: every lazily cached factor is None after any write of gamma/gbEnergy/site type; area - 2k*removed - 3*volume == 0, the k=0 limits and the reduction of Rcrit/Gcrit to the classical values are exact identities of the extracted formulas; outputs are zero-initialised and written only under the positive-driving-force / non-zero masks; occupied sites are summed over all phases of the same site type and returned through max(.,0).',
    'Finiteness, monotonicity in dG and k and the incubation factor range are not decided.', '4/C14'),
- 'C15': C('other', 'alias/purity analysis, exact sympy identities and one-sided limits on extracted closed forms, dtype rule, derived-state rule',
+ 'C15': C('other', 'alias/purity analysis, exact sympy identities and one-sided limits on extracted closed forms, dtype rule, derived-state rule, mode-flag must-assign analysis (T-MODEFLAG)',
    STRUCT + 'Here: no factor function writes into its aspect-ratio/radius argument; unit volume and axis ratio of the semi-axes, the sphere limits of needle/plate factors and continuity at aspect ratio 1 (value used below 1 == limit of the shape formula) are exact; result buffers are float; ShapeFactor keeps no value derived from a previous description.',
    'Agreement with quadrature of area/capacitance integrals, monotonicity and the bisection tolerance are not decided.', '4/C15'),
- 'C16': C('other', 'derived-state freshness by symbolic execution, literal evaluation of quadrature tables with exact trigonometry, exact replay of modulus conversions, non-commutative operator normal forms',
+ 'C16': C('other', 'derived-state freshness by symbolic execution, literal evaluation of quadrature tables with exact trigonometry, exact replay of modulus conversions, non-commutative operator normal forms, tensor-index bookkeeping of the rotations, shared class-level state rule (T-SHARED)',
    STRUCT + 'Here: the rotated tensors are recomputed after every write of a rotation/stiffness (order independence); quadrature weights sum to 1 with the orbit multiplicities, point counts are the documented ones and the closed A-orbits are the octahedral orbits, the C-orbit generator/table contract holds (known finding F21: it does not); all 15 modulus conversions reproduce (E,nu,G); Voigt maps are inverse tables; fourth-rank and 6x6 energy routines are the same operator expression.',
    'Positivity, scaling laws, rotation invariance and closed forms are not decided. F21 (Lebedev orbits) is a recorded known finding: its repair changes values pinned by 3 existing tests.', '4/C16'),
- 'C17': C('other', 'taint rule for phase addressing, symmetric-axis rule, registry tables, formula shape with the phase sum as opaque linear operator, purity',
+ 'C17': C('other', 'taint rule for phase addressing, symmetric-axis rule, dispatch tables decided by symbolic execution, must-pass-through of post-processing on the loop-body CFG, formula shape with the phase sum as opaque linear operator, purity',
    STRUCT + 'Here: rows of the per-stable-phase arrays are never selected by a position in the database phase list and the stable phase names travel with the arrays; averaging rules consume the phase axis only by reductions; keyword/id/function registries are total and map to namesakes; Wiener/labyrinth/Hashin-Shtrikman have the stated form with the sum taken before the non-linear map; averaging rules do not write into the cached arrays.',
    'Ordering of the bounds and their values are not decided.', '4/C17'),
- 'C18': C('other', 'sibling sanitising rule, symbolic execution of history growth, must-precede dataflow, formula/prefactor agreement, purity',
+ 'C18': C('other', 'sibling sanitising rule, symbolic execution of history growth, must-precede and must-pass-through dataflow on the CFG (solve before every normal exit), formula/prefactor agreement, purity',
    STRUCT + 'Here: weak/strong/Orowan arrays pass the same negative|non-finite mask; each strength history grows by exactly one entry per host step on every path and the host updates coupled models once per step after its record; grain growth is solved over exactly the host step; strength = M*min(weak,strong,Orowan) without rescaling its arguments; Zener drag carries the growth-law prefactor and freezes the band.',
    'Positivity/monotonicity of the individual formulas and grain-volume conservation are not decided.', '4/C18'),
  'C19': C('other', 'attribute-protocol check against the class hierarchy, symbolic execution of the latch, all-paths polling rule, table rules, solver typestate',
    'The stopping protocol is shape and is decided on all paths: every attribute a condition reads exists on the host, a met condition is never re-evaluated and its time is written with the transition only (exact interpolation formula), every registered condition is polled on every step before the or/and fold, each condition reads the history of its name with the selection it was given, the solver ends on the returned flag, the TTP calculator resets before every run.',
    'That the interpolated crossing time lies inside the step is numeric and not decided.', '4/C19'),
- 'C20': C('other', 'delegation/forwarding agreement, save/load key-table agreement, symbolic execution of toDict under present/absent recordings, protocol check',
+ 'C20': C('other', 'delegation/forwarding agreement, save/load key-table agreement, symbolic execution of toDict under present/absent recordings, must-analysis of key presence on the CFG, JSON/ndarray type agreement of the refit path, argument-normalisation rule of the getters, protocol check',
    STRUCT + 'Here: every untrained surrogate getter returns its namesake on the thermodynamics object with all its own parameters, internal delegations forward the phase selection; save and load agree on their key tables for precipitation, diffusion, surrogate and strength models; recordings are saved exactly when they exist and None is never saved; every thermodynamics method the precipitation model calls exists on all four thermodynamics/surrogate classes.',
    'Exact reproduction of array contents and interpolation at training points are not decided.', '4/C20'),
 }
